@@ -17,8 +17,7 @@ from ..gen import spec as gs
 from . import _generic as g
 
 PROP = "C07"
-CLASSES = {"int-status-key-drops-operation": "F16", "yaml-int-status-key": "F16",
-           "empty-operation-id-drops-operation": "F44"}
+CLASSES = {"int-status-key-drops-operation": "F16", "yaml-int-status-key": "F16"}
 
 
 def case_fn(case: dict, d):
